@@ -712,11 +712,12 @@ controlConn.close() hands `quit` to the heartbeat goroutine over an UNBUFFERED c
 that goroutine comes back to its select — also when it is inside c.reconnect() at that moment (dialling the ring's
 hosts and the contact points, handshake, system.local, REGISTER, refreshRing).
 
-FULL PROPERTY ("… after which the driver's background goroutines exit"): `run init as = some s → s.cl = .done → s.hb = .exited`.
-It does NOT hold for the code that exists: close() only signals a heartbeat goroutine that has already done its
-CAS(Starting → Started); one that is scheduled later finds Starting, starts and is never told to stop
-(`C17_cex_ctl_close_before_heartbeat_runs`, proposed finding KF-C17-4). `C17_ctl_heartbeat_exits_partial` excludes exactly
-that: it requires the closer's CAS to have found Started (`s.state = .closing`). -/
+FULL PROPERTY ("… after which the driver's background goroutines exit"), proved below without exclusion since the repair of
+KF-C17-4 (props/C17.fix-KF-C17-4.diff: close() SWAPS the state to Closing and signals only a heartbeat that had started):
+once close() has returned the heartbeat goroutine has exited, or has not run yet and then its first instruction is its
+last (`C17_ctl_heartbeat_exits`). Before the repair close() used CAS(Started → Closing): a heartbeat goroutine scheduled
+after close() still found Starting, started and was never told to stop — `C17_old_close_before_heartbeat_runs` keeps the
+kernel-checked counterexample about that OLD definition (`Ctl.runG false false`) as a regression witness. -/
 
 /-- **Session.Close is never stranded on the control connection**: whenever the closer waits in `c.quit <- struct{}{}`,
     the heartbeat goroutine is alive, on its way back to the select, and can move — for every schedule of heartbeats,
@@ -725,7 +726,7 @@ theorem C17_ctl_closer_never_stranded (as : List Ctl.Act) (s : Ctl.St) (hr : Ctl
     (hc : s.cl = .sending) :
     s.state = .closing ∧ (s.hb = .select ∨ s.hb = .beat ∨ s.hb = .inReconn) ∧
     ∃ a, Ctl.hbAct s a = true ∧ (Ctl.step s a).isSome = true := by
-  have inv := C17Ctl.inv_run false as _ s (C17Ctl.inv_init false) hr
+  have inv := C17Ctl.inv_run true as _ s (C17Ctl.inv_init true) hr
   exact ⟨(inv.sending hc).1, (inv.sending hc).2, C17Ctl.hb_enabled s inv hc⟩
 
 /-- **… and waits for a bounded number of the heartbeat goroutine's steps**: from any reachable state in which the closer
@@ -735,7 +736,7 @@ theorem C17_ctl_closer_never_stranded (as : List Ctl.Act) (s : Ctl.St) (hr : Ctl
 theorem C17_ctl_close_wait_bounded (as bs : List Ctl.Act) (s s' : Ctl.St) (hr : Ctl.run Ctl.init as = some s)
     (hc : s.cl = .sending) (hr' : Ctl.run s bs = some s') (hc' : s'.cl = .sending) :
     C17Ctl.hbSteps s bs + Ctl.mu s' ≤ Ctl.mu s :=
-  C17Ctl.mu_run bs s s' (C17Ctl.inv_run false as _ s (C17Ctl.inv_init false) hr) hc hr' hc'
+  C17Ctl.mu_run bs s s' (C17Ctl.inv_run true as _ s (C17Ctl.inv_init true) hr) hc hr' hc'
 
 /-- once close() has switched the state to Closing no reconnect attempt starts any more (reconnect() returns at once) and
     the state stays Closing -/
@@ -749,32 +750,11 @@ theorem C17_ctl_no_reconnect_after_close (as : List Ctl.Act) (s s' : Ctl.St) (a 
       | (simp at hs; done)
       | (injection hs with hs; subst hs; simp_all))
 
-/-- the heartbeat goroutine is gone when close() returns — PARTIAL: provided close()'s CAS found the heartbeat started
-    (`s.state = .closing`; excluded: Close before the heartbeat goroutine's first instruction, KF-C17-4) -/
-theorem C17_ctl_heartbeat_exits_partial (as : List Ctl.Act) (s : Ctl.St) (hr : Ctl.run Ctl.init as = some s)
-    (hd : s.cl = .done) (hst : s.state = .closing) : s.hb = .exited := by
-  have inv := C17Ctl.inv_run false as _ s (C17Ctl.inv_init false) hr
-  rcases inv.closed hst (Or.inr hd) with h | h
-  · exact h
-  · have := inv.freshCas rfl h; simp [hst] at this
-
-/-- kernel-checked counterexample to the full statement (code that exists): Session.Close runs before the heartbeat
-    goroutine's first instruction; close() returns, the goroutine then starts and along EVERY continuation it never
-    exits (nobody will ever send on quit) -/
-theorem C17_cex_ctl_close_before_heartbeat_runs :
-    ∃ s, Ctl.run Ctl.init [.close, .closeConn, .hbStart] = some s ∧ s.cl = .done ∧ s.hb = .select ∧
-      ∀ (bs : List Ctl.Act) (s' : Ctl.St), Ctl.run s bs = some s' → s'.cl = .done ∧ s'.hb ≠ .exited := by
-  refine ⟨_, rfl, by decide, by decide, ?_⟩
-  intro bs s' hr
-  have h := C17Ctl.late_run bs _ s' ⟨by decide, by decide, by decide⟩ hr
-  refine ⟨h.cl, ?_⟩
-  rcases h.hb with h | h | h <;> simp [h]
-
-/-- the proposed repair (close() SWAPS the state to Closing and signals only if it was Started): the full statement —
-    after close() the heartbeat goroutine has exited or has not run yet, and then its first instruction is its last -/
-theorem C17_ctl_swap_close_heartbeat_exits (as : List Ctl.Act) (s : Ctl.St) (hr : Ctl.runG false true Ctl.init as = some s)
-    (hd : s.cl = .done) :
-    s.hb = .exited ∨ (s.hb = .notStarted ∧ ∀ a s', Ctl.stepG false true s a = some s' → s'.hb = .notStarted ∨ s'.hb = .exited) := by
+/-- **the heartbeat goroutine is gone when close() returns** (full; repaired close()): for every schedule — Close before,
+    while or after the heartbeat goroutine's first instruction included — once close() has returned the goroutine has
+    exited, or it has not run yet and whatever happens next it is still not running or it has exited (its CAS fails) -/
+theorem C17_ctl_heartbeat_exits (as : List Ctl.Act) (s : Ctl.St) (hr : Ctl.run Ctl.init as = some s) (hd : s.cl = .done) :
+    s.hb = .exited ∨ (s.hb = .notStarted ∧ ∀ a s', Ctl.step s a = some s' → s'.hb = .notStarted ∨ s'.hb = .exited) := by
   have inv := C17Ctl.inv_run true as _ s (C17Ctl.inv_init true) hr
   have hst : s.state = .closing := inv.swapClosing rfl (by simp [hd])
   rcases inv.closed hst (Or.inr hd) with h | h
@@ -784,10 +764,28 @@ theorem C17_ctl_swap_close_heartbeat_exits (as : List Ctl.Act) (s : Ctl.St) (hr 
     have hown := inv.own
     obtain ⟨st, hb, cl, rc⟩ := s
     simp only at h hst; subst h; subst hst
-    cases a <;> simp only [Ctl.stepG] at hs <;> (repeat' split at hs) <;>
+    cases a <;> simp only [Ctl.step, Ctl.stepG] at hs <;> (repeat' split at hs) <;>
       (first
         | (simp at hs; done)
         | (injection hs with hs; subst hs; simp_all))
+
+/-- non-vacuity of the second alternative: Close before the heartbeat goroutine's first instruction; that instruction
+    then finds Closing and returns -/
+example : ∃ s s', Ctl.run Ctl.init [.close, .closeConn] = some s ∧ s.cl = .done ∧ s.hb = .notStarted ∧
+    Ctl.step s .hbStart = some s' ∧ s'.hb = .exited ∧ s'.state = .closing := by
+  refine ⟨_, _, rfl, by decide, by decide, rfl, by decide, by decide⟩
+
+/-- Regression witness about the OLD close() (CAS(Started → Closing), before the repair of KF-C17-4; NOT the code that
+    exists): Session.Close runs before the heartbeat goroutine's first instruction; close() returns, the goroutine then
+    starts and along EVERY continuation it never exits (nobody will ever send on quit) -/
+theorem C17_old_close_before_heartbeat_runs :
+    ∃ s, Ctl.runG false false Ctl.init [.close, .closeConn, .hbStart] = some s ∧ s.cl = .done ∧ s.hb = .select ∧
+      ∀ (bs : List Ctl.Act) (s' : Ctl.St), Ctl.runG false false s bs = some s' → s'.cl = .done ∧ s'.hb ≠ .exited := by
+  refine ⟨_, rfl, by decide, by decide, ?_⟩
+  intro bs s' hr
+  have h := C17Ctl.late_run bs _ s' ⟨by decide, by decide, by decide⟩ hr
+  refine ⟨h.cl, ?_⟩
+  rcases h.hb with h | h | h <;> simp [h]
 
 /-- what the schedules with Close inside a reconnect are there to catch (the heartbeat goroutine returning when it
     comes out of reconnect() and sees Closing — NOT the code that exists): the closer waits on `quit` for good -/
